@@ -131,3 +131,10 @@ Check C03.C03_never_stuck.
 Theorem C02_page_loop_never_stuck : ltac:(restate C03.C03_never_stuck).
 Proof. exact C03.C03_never_stuck. Qed.
 Print Assumptions C02_page_loop_never_stuck.
+
+(* the `while True:` loop of avoid_collisions regenerated from float.py: with loop fuel above the number of placed
+   floats the run ends normally (by `break`), never by "FuelExhausted" nor by an exception *)
+Check C11.C11_source_avoid_loop_terminates.
+Theorem C02_float_collision_loop_of_source_terminates : ltac:(restate C11.C11_source_avoid_loop_terminates).
+Proof. exact C11.C11_source_avoid_loop_terminates. Qed.
+Print Assumptions C02_float_collision_loop_of_source_terminates.
